@@ -186,6 +186,18 @@ def pr_leaves(fn, pre, vbranch, pbranch):
     lf("ri_card2", ["ri", "rq", "one_3"], lhs="ri", under=[pbranch, "rz >= 0", "!(ri + rq / 2 <= 0)"])
     lf("Vm_card2", ["ri", "rp", "r3[1]"], lhs="V_m", under=[pbranch, "rz >= 0", "!(ri + rq / 2 <= 0)"])
     lf("one_3", [], lhs="one_3", kind="init")
+    # trigonometric branch (three real roots): ri = sqrt(-rp^3/27); ri1 = acos(-rq/2/ri); V_m = 2 ri^(1/3) cos(ri1/3) - r1/3
+    lf("ri_trig", ["rp"], lhs="ri", under=[pbranch, "!(rz >= 0)"])
+    lf("Vm_trig", ["ri", "one_3", "ri1", "r3[1]"], lhs="V_m", under=[pbranch, "!(rz >= 0)"])
+    s_acos = fn.select(lhs="ri1", under=[pbranch, "!(rz >= 0)"])
+    call = leaf._strip(s_acos.node)
+    callee = leaf._strip(call["inner"][0]) if call.get("kind") == "CallExpr" else {}
+    if callee.get("referencedDecl", {}).get("name") not in ("acos", "acosl") or len(call.get("inner", [])) != 2:
+        raise LeafError("%scalc_PR: ri1 is not acos(<expr>)" % pre)
+    class _A:                       # pseudo-site: the argument of acos
+        node, kind, prev, order = call["inner"][1], "arg", None, s_acos.order
+    tr_a = leaf._Translator(fn, ["rq", "ri"], rd_inline(fn, _A, ["rq", "ri"]), {}, False)
+    acos_arg = "Definition %sacos_arg : rexpr :=\n  %s.\n" % (pre, leaf.coq_of(tr_a.tr(call["inner"][1])))
     # fugacity coefficients
     lf("pr_p", [PH + "fraction_x", "P"], lhs=PH + "pr_p", nth=-1)
     lf("Z", ["P", "V_m", "R_TK"], lhs="rz", nth=-1)
@@ -198,7 +210,7 @@ def pr_leaves(fn, pre, vbranch, pbranch):
     # the clamp  phi = (phi > hi ? hi : (phi < lo ? lo : phi))  and the guard  rz > B
     site = fn.select(lhs="phi", under=["rz > B"], nth=1)
     tr = leaf._Translator(fn, ["phi"], {}, {}, False)
-    extra = "Definition %slnphi_clamp : cexpr :=\n  %s.\n" % (pre, tr_cond(tr, site.node))
+    extra = acos_arg + "Definition %slnphi_clamp : cexpr :=\n  %s.\n" % (pre, tr_cond(tr, site.node))
     conds = if_node_of(fn, "rz > B")
     if len(conds) != 1:
         raise LeafError("%scalc_PR: expected exactly one `if (rz > B)`" % pre)
